@@ -601,6 +601,9 @@ class Fn:
             m = _FROM_INT.search(c or "")
             if m and len(args) == 1:
                 return ("cast", m.group(1), m.group(2), args[0])
+            if stop and "callid" in stop:
+                # the defining block identifies the call: two calls of one function with equal arguments stay apart
+                return ("call", c or "<indirect>", args, b)
             return ("call", c or "<indirect>", args)
         r = node["r"]
         return self.rvalue_expr(r, depth - 1, stop)
